@@ -34,7 +34,6 @@ sys.set_int_max_str_digits(0)  # exact rationals with tens of thousands of digit
 LEVEL = "proof"
 TOL = 1e-8  # the property's own tolerance
 PROPS = "TTProofs/Props/C03.lean"
-COMPANIONS = ["TTProofs/Props/C03_Grad.lean", "TTProofs/Props/C03_Trees.lean"]
 
 # ----------------------------------------------------------------------------------------------
 # trees (built programmatically: newick text -> torchtree's own parse_tree)
@@ -587,6 +586,14 @@ class Hist:
         self.scale *= f
         self.ops.append({"op": "scale-branch-lengths", "factor": f})
 
+    def set_sample_scales(self, factors):
+        """batched model: sample s gets the base branch lengths times factors[s] (a parameter update)"""
+        torch = tt()
+        base = branch_tensor({k: v for k, v in self.cfg.items() if k != "batch"})
+        self.b.blp.tensor = torch.stack([base * float(f) for f in factors])
+        self.scale = tuple(float(f) for f in factors)
+        self.ops.append({"op": "set-sample-scales", "factors": [float(f) for f in factors]})
+
     def evaluate(self):
         self.ops.append({"op": "evaluate"})
         return observe(self.b.like)
@@ -626,7 +633,9 @@ def eval_and_check(ck, drv, h: Hist, label, refs, fails, want_mp=False, group="s
     for s in range(len(vals)):
         kc = dict(info["cfg"])
         kc.pop("tip_states", None)  # both tip paths denote the same number on unambiguous data
-        key = (json.dumps(kc, sort_keys=True), s if batch else None, round(h.scale, 12))
+        kc.pop("batch", None) if isinstance(h.scale, tuple) else None
+        sc_key = round(h.scale[s], 12) if isinstance(h.scale, tuple) else (round(h.scale * (batch[s] if batch else 1.0), 12))
+        key = (json.dumps({k: v for k, v in kc.items() if k != "batch"}, sort_keys=True), sc_key)
         if key not in refs:
             tot, logs = reference(drv, like, rec["mats"], rec["freqs"], rec["props"], s if batch else None)
             if tot is None:
@@ -791,22 +800,26 @@ def site_logs_at(drv, cfg):
 
 
 def tune_t(drv, base, m: int, target: float, t_guess=None):
-    """branch length (all branches equal) at which the smallest site log-likelihood is ~ target"""
+    """branch length (all branches equal) at which the smallest site log-likelihood is ~ target (secant steps on
+    log t against the exact reference). Returns (t, measured min site log) or (None, None)."""
     t = t_guess if t_guess is not None else 3.0 * math.exp(target / m)
     slope = float(m)
     last = None
-    for _ in range(4):
+    cur = None
+    for _ in range(9):
         logs = site_logs_at(drv, dict(base, t=t))
-        if logs is None:
-            return None, None
+        if logs is None:  # exact likelihood not positive (a computed P(t) has a zero/negative entry): longer branches
+            t *= 3.0
+            last = None
+            continue
         cur = min(logs)
-        if last is not None and abs(math.log(t) - last[0]) > 1e-9:
-            slope = max(1.0, (cur - last[1]) / (math.log(t) - last[0]))
         if abs(cur - target) < 1.5:
             return t, cur
+        if last is not None and abs(math.log(t) - last[0]) > 1e-9:
+            slope = max(1.0, (cur - last[1]) / (math.log(t) - last[0]))
         last = (math.log(t), cur)
-        t = math.exp(math.log(t) + (target - cur) / slope)
-    return t, cur
+        t = math.exp(math.log(t) + max(-3.0, min(3.0, (target - cur) / slope)))
+    return (t, cur) if cur is not None and abs(cur - target) < 6.0 else (None, cur)
 
 
 def mixed_sweep(ck: Check, drv, budget_s: float):
@@ -878,6 +891,74 @@ def mixed_sweep(ck: Check, drv, budget_s: float):
 
 
 # ----------------------------------------------------------------------------------------------
+# part 4: batched histories — only SOME samples underflow, across a sequence of parameter updates
+# ----------------------------------------------------------------------------------------------
+
+
+def batch_histories(ck: Check, drv, budget_s: float):
+    """The flag is per model object, not per sample (Lean: Props/C03_Batch.lean — evalBatch_flag,
+    batch_switch_for_all, sticky_batch, history_consistent_batch).  Small trees (56 taxa) so that the regime of a sample
+    is set by its branch lengths alone: t=5 above the 1e-40 switch threshold, t=0.05 below it but normal, a tuned
+    t~1e-8 in the denormal band, a tenth of that flushed to zero.  Every sample of every evaluation is compared with
+    the exact reference; the functions called and the flag must follow flagRun with one switch bit per evaluation."""
+    rng = ck.rng
+    fails, refs = [], {}
+    t_start = time.time()
+    configs = [("random", 56, "JC69", 1, False)]
+    if ck.thorough():
+        configs += [("balanced", 60, "HKY", 4, False), ("random", 52, "JC69", 4, True),
+                    ("caterpillar", 56, "HKY", 1, False), ("balanced", 64, "GTR", 1, True)]
+    for ci, (shape, n, model, K, tipst) in enumerate(configs):
+        if time.time() - t_start > budget_s:
+            ck.notes.append(f"batch histories: budget reached before configuration {ci}")
+            break
+        sites = random_sites(rng, n, 3 if K == 1 else 2)
+        base = {"shape": shape, "model": model, "K": K, "tip_states": tipst, "seed_shape": rng.randrange(10 ** 6),
+                "sites": sites, "n": n, "batch_history": True, "t": 0.0}
+        t_band, got = tune_t(drv, base, max(8, int(0.6 * n)), -736.0, 1e-8)
+        if t_band is None or not (-744.0 < got < -712.0):
+            ck.notes.append(f"batch histories: could not tune {shape}/{model} into the band (got {got})")
+            continue
+        A, NRM, BAND, ZERO = 5.0 / t_band, 0.05 / t_band, 1.0, 0.1
+        ck.extra.setdefault("batch_histories", {})[f"{shape}/n={n}/{model}/K={K}/{'tip-states' if tipst else 'tip-partials'}"] = {
+            "band_branch_length": t_band, "band_min_site_log": got,
+            "regimes": "A=t 5 (above 1e-40), NRM=t 0.05, BAND=tuned, ZERO=tuned/10"}
+        histories = [
+            # nothing underflows -> one sample enters the band -> back (flag must stay) -> mixed -> permuted
+            [[A, 0.8 * A, 1.2 * A], [A, BAND, 1.2 * A], [A, 0.8 * A, 1.2 * A], [ZERO, BAND, NRM], [A, NRM, BAND]],
+            # first evaluation already has one sample flushed to zero (-inf) next to two healthy ones
+            [[A, ZERO, 0.9 * A], [A, 0.8 * A, 1.2 * A], [BAND, 0.97 * BAND, 1.03 * BAND]],
+            # a below-threshold-but-normal sample only, then the band
+            [[A, NRM, 1.1 * A], [1.02 * BAND, A, A]],
+        ]
+        for hi, seq in enumerate(histories):
+            if time.time() - t_start > budget_s:
+                ck.notes.append(f"batch histories: budget reached in configuration {ci}")
+                break
+            cfg = dict(base, t=t_band, batch=seq[0])
+            h = Hist(cfg)
+            if hi == 0:
+                check_wf(ck, drv, h.b.like)
+            flags_seen = []
+            for si, factors in enumerate(seq):
+                if si > 0:
+                    h.set_sample_scales(factors)
+                rec = eval_and_check(ck, drv, h, f"batch-history-{hi}-step-{si}", refs, fails, group="batch")
+                flags_seen.append((rec.get("flag_before"), rec.get("flag_after"), rec.get("calls")))
+            # the whole history against the automaton: switch bit of evaluation i = flag got set in it
+            bits = ["1" if (not a and b) else "0" for a, b, _ in flags_seen]
+            rep = drv.ask("flags %d 0 %s" % (1 if tipst else 0, " ".join(bits)))
+            want = rep.split()[0].split(",")
+            got_br = [branch_name(c, tipst) for _, _, c in flags_seen]
+            ck.bucket("batch/history-vs-flagRun")
+            if want != got_br:
+                fails.append({"kind": "flag-automaton", "cfg": cfg_public(cfg), "label": f"batch-history-{hi}",
+                              "history": list(h.ops), "calls": flags_seen[-1][2], "model": rep, "observed": got_br,
+                              "sites": sites, "values": None, "reference": None, "rel_err": None})
+    return fails
+
+
+# ----------------------------------------------------------------------------------------------
 
 
 def zone_of(f):
@@ -919,12 +1000,7 @@ def run(ck: Check):
                    "Lean Rat/Nat (GMP) arithmetic in the compiled driver", "mpmath (cross-check of the reference)"]
     ok, broken = ck.lean_side({}, ["TTModel.C03_Rescale", "TTProofs.Props.C03", "TTProofs.Props.C03_Grad",
                                    "TTProofs.Props.C03_Trees", "drv_c03"], PROPS)
-    if ok:  # companion theorem files: same-derivative corollaries; theorems for every tree (no wf hypothesis)
-        for extra in COMPANIONS:
-            n_before = len(ck.obligations)
-            if not ck.audit(extra, leanchecker=False):
-                ok = False
-                broken += [o["name"] + ": " + o.get("detail", "") for o in ck.obligations[n_before:] if not o["ok"]]
+    # companion files Props/C03_Grad.lean, Props/C03_Trees.lean are built and audited by common.lean_side
     drv = ck.driver("drv_c03")
     fails = []
     try:
@@ -944,6 +1020,7 @@ def run(ck: Check):
         small_correspondence(ck, drv, 240 if ck.thorough() else 50, direct_fails)
         fails = direct_fails + sweep(ck, drv, 600.0 if ck.thorough() else 60.0)
         fails += mixed_sweep(ck, drv, 240.0 if ck.thorough() else 30.0)
+        fails += batch_histories(ck, drv, 120.0 if ck.thorough() else 12.0)
     finally:
         drv.close()
     ck.extra["sweep_failures"] = len(fails)
@@ -992,6 +1069,8 @@ def replay(path: str) -> int:
             h.preset()
         elif op["op"] == "scale-branch-lengths":
             h.scale_branches(op["factor"])
+        elif op["op"] == "set-sample-scales":
+            h.set_sample_scales(op["factors"])
         elif op["op"] == "evaluate":
             rec = h.evaluate()
             print("evaluate ->", rec.get("error") or [float(x) for x in rec["value"].reshape(-1).tolist()],
